@@ -212,6 +212,18 @@ def replay_file(spec, path: str) -> tuple[str, str]:
         rec = json.load(f)
     subs = {s.name: s for s in spec['subs']}
     sub = subs.get(rec['sub'])
+    if rec['sub'] == 'exhaustive':
+        try:
+            for fn in (spec.get('exhaustive') or {}).values():
+                fn(rec.get('tier', 'quick'))
+        except Violation as v:
+            return 'violation', f'{v.bucket}: {v.message}'
+        except BaseException as e:  # noqa
+            fr = cirbo_frame(e.__traceback__)
+            if fr is None:
+                return 'error', ''.join(traceback.format_exception(type(e), e, e.__traceback__))[-3000:]
+            return 'violation', f'crash:{type(e).__name__}@{fr}: {e}'
+        return 'pass', ''
     if sub is None:
         return 'error', f'unknown sub-check {rec["sub"]}'
     try:
